@@ -243,7 +243,10 @@ structure CsvFile (ρ : Type) where
   present : Bool
   /-- what `fs_utils::line_count` reports: text lines including the header -/
   lines : Nat
-  /-- the csv reader finds a header row (false: the file has no content at all) -/
+  /-- the reader accepts the header row: there is one (false for a file without any content) and, for
+  the edge and vertex loaders (`read_utils::require_csv_columns`), it names every column the records
+  are decoded by (false for `edge_id;src_vertex_id;…`, for other column names, and for a file without
+  a header row, whose first record is taken for one).  Data: the harness computes it from the text. -/
   hasHeader : Bool
   /-- the records after the header as the csv reader yields them; `bad` = does not decode -/
   rows : List (Row ρ)
@@ -267,8 +270,9 @@ def scanCount (f : CsvFile ρ) : Except LoadErr Nat :=
   else if f.lines < 1 then .error .dataset
   else .ok (f.lines - 1)
 
-/-- `read_utils::from_csv` with a header row expected: the file cannot be opened, the header row
-cannot be read or is absent, or a record does not decode — all `csv::Error` -/
+/-- `read_utils::from_csv` with a header row expected (preceded, in the graph loaders, by
+`require_csv_columns`): the file cannot be opened, the header row cannot be read, is absent or does
+not name the required columns, or a record does not decode — all `csv::Error` -/
 def readCsv (f : CsvFile ρ) : Except LoadErr (List ρ) :=
   if f.present = false then .error .csv
   else if f.hasHeader = false then .error .csv
